@@ -107,13 +107,20 @@ class Check:
     # ---- bookkeeping of what was encoded ----
     OWNERS = {'field': ('C12',), 'scalar': ('C06',)}
 
-    def dep_violation(self, layer, key, text, path, witnesses=()):
+    # lower-layer kernels whose operands are arbitrary canonical values under the property's own quantifier (any scalar / any coordinate /
+    # any projective scaling / any field element u): a kernel that returns a WRONG VALUE (not merely an unreduced representative) on such
+    # operands makes the property fail on the inputs that feed it those operands, even when no battery input happens to do so
+    EXPOSED = {'C07': {'scalar.from', 'scalar.to'}, 'C13': {'scalar.from'}, 'C14': {'scalar.from'}, 'C18': {'scalar.to'}, 'C01': {'scalar.from', 'field.mul', 'field.square', 'field.add', 'field.sub'},
+               'C02': {'field.mul', 'field.square', 'field.add', 'field.sub'}, 'C05': {'field.mul'}, 'C04': {'field.mul', 'field.from'}, 'C03': {'field.to'},
+               'C11': {'field.mul', 'field.square', 'field.add', 'field.sub'}, 'C09': set(), 'C08': set()}
+
+    def dep_violation(self, layer, key, text, path, witnesses=(), exposed_as=None):
         """a concrete violation of a lower-layer contract (internal/field, internal/scalar).  For the check that owns the layer it is a
         violation of the property; for a check that merely relies on the contract it is recorded, and the property's own replay
         (with inputs derived from the lower-layer witness) decides whether the property itself is affected"""
         if self.pid in self.OWNERS.get(layer, ()) or self.pid == 'C10':
             return self.violation(key, text, path)
-        self.depfails.append({'layer': layer, 'key': key, 'text': text, 'path': path, 'witnesses': [int(w) for w in witnesses]})
+        self.depfails.append({'layer': layer, 'key': key, 'text': text, 'path': path, 'witnesses': [int(w) for w in witnesses], 'exposed_as': exposed_as})
 
     def resolve_deps(self):
         if not self.depfails or self.violations or getattr(self, '_deps_done', False):
@@ -141,6 +148,11 @@ class Check:
         if not ok and 'MISMATCH' in out:
             self.violation('dep:' + d0['key'], 'a lower-layer defect (%s) reaches this property: %s' % (d0['text'][:160], [l.strip() for l in out.splitlines() if 'MISMATCH' in l][:1]), path)
         else:
+            ex = [d for d in self.depfails if d.get('exposed_as') and d['exposed_as'] in self.EXPOSED.get(self.pid, ())]
+            if ex:
+                self.violation('dep:' + ex[0]['key'], '%s - a wrong VALUE on operands that reach this kernel directly under the property\'s quantifier (replay at kernel level; the property battery itself does not contain such an input)'
+                               % ex[0]['text'][:260], ex[0]['path'])
+                return
             self.inconclusive.append('a lower-layer contract this proof relies on is violated (%s; replay %s), but the property-level replay (witness-derived inputs + the property battery) passes'
                                      % (d0['text'][:200], d0['path']))
 
